@@ -19,6 +19,8 @@ def expected(spec, i):
     if body == "raise":
         if spec.get("exc") == "unpicklable":
             return ("exc", None)            # some exception on its own future
+        if spec.get("exc") == "falsy":
+            return ("exc", "FalsyError")
         return ("exc", "TaskError")
     if body == "sysexit":
         return ("exc", "SystemExit")
@@ -318,6 +320,20 @@ def attribute(scen, rec, f, fail):
                 # (third case: the callback waits for the module lock that another thread holds while that thread's own
                 #  resize waits for the jobs - which only the blocked manager thread can complete)
                 return "D26"
+    if fail[1] in ("api-hang", "future-unresolved", "maxsteps", "livelock") and \
+            any(t.get("cb") == "submit" for t in scen.get("tasks", [])) and scen.get("kind") == "reusable" and \
+            any(n.startswith("M") and str(b).startswith("acquire(execlock") for n, b in blocked.items()):
+        # a done-callback that submits to the reusable executor (submit takes the module lock) runs in the manager
+        # thread while another thread is inside get_reusable_executor() with that lock, waiting for the manager thread
+        # (replacement: shutdown(wait=True) joins it; resize: waits for the jobs or for workers to leave)
+        return "D30"
+    if (fail[1] == "actor-exception" and "Full" in fail[2]) or \
+            (fail[0] == "C09" and fail[1] in ("previous-not-shut-down", "workers-left-behind")):
+        # the manager's sentinel loop gave up (queue.Full after its back-off) because the workers that should drain the
+        # call queue are blocked behind a dead holder of a queue lock: the D7 class, seen from shutdown_workers
+        if any(l.endswith("cq.rlock") or l.endswith("rq.wlock") for l in dh) and \
+                any("Full" in str(x) for x in rec.get("actors_exc", {}).values()):
+            return "D7"
     if fail[0] in ("C01", "C02", "C05", "C06") and fail[1] in ("api-hang", "future-unresolved", "manager-left-behind",
                                                            "worker-left-behind", "survivors", "not-flagged", "future-hangs",
                                                            "maxsteps", "livelock", "needs-task-progress"):
